@@ -240,6 +240,24 @@ func (c *Ctx) checkSafeAdd(fn *ssa.Function) {
 			if f.Y == ssa.Value(sum) && (f.X == a || f.X == b) && f.Op == token.LEQ {
 				return true
 			}
+			// headroom form: `b <= max - a` (tested before adding, for operands already known to be non-negative)
+			isHeadroom := func(v, other ssa.Value) bool {
+				bo, ok := v.(*ssa.BinOp)
+				if !ok || bo.Op != token.SUB || bo.Y != other {
+					return false
+				}
+				if _, isC := bo.X.(*ssa.Const); isC {
+					return true
+				}
+				_, isG := loadGlobal(bo.X)
+				return isG
+			}
+			if (f.X == b && isHeadroom(f.Y, a) || f.X == a && isHeadroom(f.Y, b)) && f.Op == token.LEQ {
+				return true
+			}
+			if (f.Y == b && isHeadroom(f.X, a) || f.Y == a && isHeadroom(f.X, b)) && f.Op == token.GEQ {
+				return true
+			}
 		}
 		return false
 	}
